@@ -55,8 +55,19 @@ struct Slot {
 	long idleSkipped = 0;
 };
 
+/* C09: a BasicDelayedEventQueue driven directly through the public DelayedEventQueue interface ("dq" op);
+ * deliveries are recorded with the simulated time at which the timer thread handed them over. */
+struct DirectQueue : public DelayedEventQueueCallbacks {
+	std::string tag;
+	std::shared_ptr<DelayedEventQueueImpl> impl;
+	virtual void eventReady(Event& event, const std::string& eventUUID) {
+		tr::Rec(tag, "dqfire").str(event.name).str(eventUUID);
+	}
+};
+
 struct Run {
 	const js::Value* plan = nullptr;
+	std::map<long long, DirectQueue*> dqs;
 	std::vector<Slot> slots;
 	RecMonitor monitor;
 	std::map<std::string, std::thread*> threads;
@@ -391,6 +402,53 @@ static void execOp(const std::string& actor, size_t idx, const js::Value& op) {
 			result = d.asJSON();
 		} else if (name == "transform") {
 			result = doTransform(interp, op);
+		} else if (name == "dq") {
+			std::string what = op["do"].str();
+			long long q = op["q"].i64(0);
+			if (what == "new") {
+				if (!R->dqs.count(q)) {
+					DirectQueue* d = new DirectQueue();
+					d->tag = "dq" + std::to_string(q);
+					usim::api_enter("dq-new");
+					d->impl = std::shared_ptr<DelayedEventQueueImpl>(new BasicDelayedEventQueue(d));
+					usim::api_leave();
+					R->dqs[q] = d;
+				}
+			} else if (R->dqs.count(q) && R->dqs[q]->impl) {
+				DirectQueue* d = R->dqs[q];
+				std::string uuid = op["uuid"].str();
+				if (what == "enq") {
+					Event e(op["name"].str("e"), Event::EXTERNAL);
+					e.uuid = uuid;
+					{ tr::Rec(d->tag, "dqenq<").str(e.name).str(uuid).num(op["delay"].i64(0)); }
+					usim::api_enter("dq-enq");
+					d->impl->enqueueDelayed(e, (size_t)op["delay"].i64(0), uuid);
+					usim::api_leave();
+					{ tr::Rec(d->tag, "dqenq>").str(e.name).str(uuid); }
+				} else if (what == "cancel") {
+					{ tr::Rec(d->tag, "dqcnl<").str(uuid); }
+					usim::api_enter("dq-cancel");
+					d->impl->cancelDelayed(uuid);
+					usim::api_leave();
+					{ tr::Rec(d->tag, "dqcnl>").str(uuid); }
+				} else if (what == "cancelall") {
+					{ tr::Rec(d->tag, "dqcna<"); }
+					usim::api_enter("dq-cancelall");
+					d->impl->cancelAllDelayed();
+					usim::api_leave();
+					{ tr::Rec(d->tag, "dqcna>"); }
+				} else if (what == "del") {
+					{ tr::Rec(d->tag, "dqdel<"); }
+					usim::api_enter("dq-del");
+					d->impl.reset();
+					usim::api_leave();
+					{ tr::Rec(d->tag, "dqdel>"); }
+				} else {
+					result = "UNKNOWN-OP";
+				}
+			} else {
+				result = "NOQUEUE";
+			}
 		} else if (name == "sleep_us") {
 			uint64_t until = usim::now_ns() + (uint64_t)op["us"].i64(0) * 1000ull;
 			std::function<bool()> ready = [until]() { return usim::now_ns() >= until; };
@@ -564,6 +622,20 @@ void runPlan(const js::Value& plan) {
 			delete kv.second;
 			kv.second = nullptr;
 		}
+	}
+	for (auto& kv : run.dqs) {
+		if (kv.second && kv.second->impl) {
+			{ tr::Rec(kv.second->tag, "dqdel<"); }
+			usim::api_enter("dq-del");
+			try {
+				kv.second->impl.reset();
+			} catch (...) {
+			}
+			usim::api_leave();
+			{ tr::Rec(kv.second->tag, "dqdel>"); }
+		}
+		delete kv.second;
+		kv.second = nullptr;
 	}
 	for (size_t i = 0; i < run.slots.size(); i++) {
 		if (run.slots[i].interp) {
